@@ -4,6 +4,7 @@
 (*   Encrypt    Document::encrypt(&state)                                                      *)
 (*   Decrypt    Document::decrypt(pw)            AuthUser / AuthOwner / Auth                    *)
 (*   Save       Document::save_to                Load   Document::load_mem (auto-decrypt)       *)
+(*   Rekey      MakeState for another configuration (same passwords) on the unencrypted document *)
 (*   Edit       the caller rewrites the strings / content of one object of the plain document  *)
 (* The effect of each call is Security!Step (impl-shaped layer, switches Dev_x); next to the   *)
 (* impl-shaped state the machine carries the judge state j of the declarative layer and the    *)
@@ -26,7 +27,7 @@ svars == <<cfg, doc, trailerEncrypt, encObj, encState, disk, lastCall, lastResul
 
 Pack == [objs |-> doc, tenc |-> trailerEncrypt, enc |-> encObj, st |-> encState, disk |-> disk, res |-> lastResult]
 
-NoRel == [u |-> "diff", o |-> "diff"]
+NoRel == [u |-> "diff", o |-> "diff", ud |-> FALSE, od |-> FALSE, rep |-> TRUE]
 
 SysInit(c, objs) ==
     /\ cfg = c
@@ -40,13 +41,14 @@ SysInit(c, objs) ==
 Apply(c) ==
     /\ Callable(Pack, c)
     /\ LET s == Pack
-           t == Step(cfg, s, c)
-           v == Judge(cfg, j, Observe(s, t, c))
+           cf == IF c.call = "Rekey" THEN c.cfg ELSE cfg      \* Rekey: MakeState with another configuration
+           t == Step(cf, s, c)
+           v == Judge(cf, j, Observe(s, t, c))
        IN /\ doc' = t.objs /\ trailerEncrypt' = t.tenc /\ encObj' = t.enc /\ encState' = t.st
           /\ disk' = t.disk /\ lastResult' = t.res
           /\ j' = v.j /\ verdict' = [ok |-> v.ok, tags |-> v.tags]
-    /\ lastCall' = c
-    /\ UNCHANGED cfg
+    /\ lastCall' = [call |-> c.call, rel |-> c.rel, tok |-> c.tok, pos |-> c.pos]
+    /\ cfg' = IF c.call = "Rekey" THEN c.cfg ELSE cfg
 
 Call(name, rel, tok) == [call |-> name, rel |-> rel, tok |-> tok, pos |-> 0]
 
@@ -59,4 +61,5 @@ Auth(rel, t)     == Apply(Call("Auth", rel, t))
 Save             == Apply(Call("Save", NoRel, ""))
 Load             == Apply(Call("Load", NoRel, ""))
 Edit(pos)        == Apply([call |-> "Edit", rel |-> NoRel, tok |-> "", pos |-> pos])
+Rekey(newcfg)    == Apply([call |-> "Rekey", rel |-> NoRel, tok |-> "", pos |-> 0, cfg |-> newcfg])
 =============================================================================
